@@ -1265,7 +1265,7 @@ func (r *Run) c14Getput(acct *c14Acct, reps int, put bool, topo, fault, leakMsg 
 // ---------------------------------------------------------------------------------------------
 
 func runC14(r *Run) {
-	r.Result.Rule = "query fault placements enumerated (NumTries 0..4 x resend delay {0, small} x {silent, pre-cancelled, closed server, late reply, and per send k: reply/cancel/Close during, at and after the write, write failure, duplicate reply, reply racing a failed write, cancel racing a reply, Close racing a reply, faults on consecutive sends}) plus PRNG-drawn multi-fault schedules; each placement repeated (20x) on fresh servers with goroutine accounting; every distinct observed history validated by the Lean query machine with model-independent negative controls; traversal owners (Bootstrap, Announce, getput.Get/Put) x {resolver error, no nodes, silent node, answering nodes, several simultaneous holders of the item} x {run, ctx cancel, Server.Close, Announce.Close/StopTraversing at three points} x {consumer reads, does not read}; non-trivial = distinct (scenario, observed history, outcome)"
+	r.Result.Rule = "query fault placements enumerated (NumTries 0..4 x resend delay {0, small} x {silent, pre-cancelled, closed server, late reply, and per send k: reply/cancel/Close during, at and after the write, write failure, duplicate reply, reply racing a failed write, cancel racing a reply, Close racing a reply, faults on consecutive sends}) plus PRNG-drawn multi-fault schedules; each placement repeated (20x) on fresh servers with goroutine accounting; every distinct observed history validated by the Lean query machine with model-independent negative controls; traversal owners (Bootstrap, Announce, getput.Get/Put) x {resolver error, no nodes, silent node, answering nodes, several simultaneous holders of the item} x {run, ctx cancel, Server.Close, Announce.Close/StopTraversing at three points, Close/StopTraversing during a slow node-filter look-up under the traversal lock} x {consumer reads, does not read}; non-trivial = distinct (scenario, observed history, outcome)"
 	t0 := time.Now()
 	acct := &c14Acct{stable: time.Duration(r.n(500, 1500)) * time.Millisecond}
 	if extra, dump := acct.settle(); extra > 0 {
@@ -1333,6 +1333,14 @@ func runC14(r *Run) {
 		}
 		r.c14Announce(acct, reps, "none", "", false, ap, "")
 		r.c14Announce(acct, reps, "mixed", "", true, ap, "")
+	}
+	// Close / StopTraversing issued while the traversal's node filter is inside a slow blocklist look-up under
+	// the traversal lock (multi-P and single-P): the stop waiter must still see the last query end
+	for i := 0; i < r.n(24, 240); i++ {
+		r.c16CloseAtFilter(i)
+	}
+	if extra, dump := acct.settle(); extra > 0 {
+		r.violation(fmt.Sprintf("stop during a slow node-filter look-up: %d goroutine(s) of the module left behind", extra), map[string]interface{}{"goroutines": c14Dedup(dump)})
 	}
 	// ---- scenarios that strand goroutines on the unchanged tree, last ----
 	for _, topo := range []string{"err", "none"} {
